@@ -22,8 +22,8 @@ PROPS = {
                     {"name": "exec", "quick": 600, "thorough": 60000}, {"name": "feemult", "quick": 100, "thorough": 4500}],
         "projection": "panics",
         "oracles": ["panics"],
-        "assumptions": ["C09_apply_total / C09_seal_total assume the reachable-state invariants bundled in ApplyPre / SealTotalPre (count invariant, fresh coin ids, coin heights, supply bounds, sane pools, positive recorded speeds, history below the height) and exclude by explicit hypothesis the dependency-crate findings F9 (melpow panics), F19 (weight sum overflow) and the 2^74-work reward overflow",
-                        "native stack overflow (F17), allocation failure and catvec length overflow (F13) are runtime behaviour outside the model; each generated case runs under catch_unwind, the witnesses in their own process"],
+        "assumptions": ["C09_apply_total / C09_seal_total assume the reachable-state invariants bundled in ApplyPre / SealTotalPre (count invariant, fresh coin ids, coin heights, supply bounds, sane pools, positive recorded speeds, history below the height) and exclude by explicit hypothesis only the 2^74-work reward overflow (the former exclusions F9 — melpow panics — and F19 — weight sum overflow — were repaired in /repo and are no longer assumed)",
+                        "native stack overflow (F17) and allocation failure are runtime behaviour outside the model; each generated case runs under catch_unwind, the witnesses in their own process"],
     },
     "C10": {
         "modules": ["C10"],
